@@ -228,8 +228,8 @@ EXC_CODES = [
 ]
 
 
-def refusal_code(order):
-    msg = order.violation_msg or ""
+def refusal_code(order, msg=None):
+    msg = msg or order.violation_msg or ""
     if "ORDER_VALIDATION" in msg:
         return "ORDER_VALIDATION"
     if "MARKET_VALIDATION" in msg:
@@ -265,6 +265,7 @@ class Run:
         self.out = []          # list of ((mid, pt), line)
         self.results = []
         self.crash = None
+        self._last_error = None
         self.clock_ok = True
 
     # ---- canonical dump
@@ -404,6 +405,7 @@ class Run:
             except (IndexError, KeyError):
                 return "no-such-order"
             self._last_order = o
+            self._last_error = None
             t = state.get("t")
             if k == "place":
                 r = (t.place_order(o, a[2], True, a[3]) if t else market.place_order(o, market_version=a[2], force=a[3]))
@@ -417,7 +419,7 @@ class Run:
                 raise ValueError(a)
             if r:
                 return "True"
-            return "False:" + refusal_code(o)
+            return "False:" + refusal_code(o, self._last_error)
         except (OrderError, OrderUpdateError) as e:
             msg = str(e)
             for frag, code in EXC_CODES:
@@ -438,6 +440,15 @@ class Run:
         saved = {k: getattr(config, k) for k in ("simulated_strategy_isolation", "place_latency", "cancel_latency", "update_latency",
                                                    "replace_latency", "raise_errors", "simulated")}
         orig_repl = trade_mod.Trade.create_order_replacement
+        from flumine.controls import BaseControl
+        orig_on_error = BaseControl._on_error
+
+        def on_error(control, order, error):
+            # the reason of a refusal, as the control words it (an order at the exchange no longer carries it)
+            run._last_error = "Order has violated: %s Error: %s" % (control.NAME, error)
+            return orig_on_error(control, order, error)
+
+        BaseControl._on_error = on_error
         try:
             config.simulated_strategy_isolation = sc["cfg"]["isolation"]
             config.place_latency = sc["cfg"]["latency"]["place"]
@@ -562,6 +573,7 @@ class Run:
             if he:
                 he(self)
             trade_mod.Trade.create_order_replacement = orig_repl
+            BaseControl._on_error = orig_on_error
             for k, v in saved.items():
                 setattr(config, k, v)
             shutil.rmtree(tmp, ignore_errors=True)
